@@ -569,6 +569,10 @@ def b2(pid, tier, seed, wd, rep):
                         rep.note_foreign(p)
                 stats["rejected"] += 1
                 continue
+            if any(isinstance(ln.get("now"), int) and ln["now"] > 2000000000 for ln in lines):
+                # (TLC integers are 32-bit: a microsecond history older than 2000 s cannot be judged - left out, counted)
+                stats["skipped_beyond_32_bit"] = stats.get("skipped_beyond_32_bit", 0) + 1
+                continue
             hist_lines.append((sc, lines))
             stats["histories"] += 1
             for ln in lines:
